@@ -460,6 +460,43 @@ func (r *TrzszRelay) handshake() {
 	confirm = true
 }
 
+// splitMarker notices an end-of-transfer marker that straddles two consecutive reads: the relay
+// looks for "#EXIT:" / "#FAIL:" / "#fail:" in every chunk it forwards while transferring, and a read
+// boundary inside the marker would otherwise leave it in transferring mode for ever.
+type splitMarker struct {
+	tail []byte
+}
+
+func (s *splitMarker) check(buf []byte) bool {
+	const keep = 5 // one byte less than the markers
+	found := false
+	if len(s.tail) > 0 {
+		head := buf
+		if len(head) > keep {
+			head = head[:keep]
+		}
+		joined := append(append(make([]byte, 0, 2*keep), s.tail...), head...)
+		for _, marker := range []string{"#EXIT:", "#FAIL:", "#fail:"} {
+			if bytes.Contains(joined, []byte(marker)) {
+				found = true
+			}
+		}
+	}
+	if len(buf) >= keep {
+		s.tail = append(s.tail[:0], buf[len(buf)-keep:]...)
+	} else {
+		joined := append(s.tail, buf...)
+		if len(joined) > keep {
+			joined = joined[len(joined)-keep:]
+		}
+		s.tail = append([]byte(nil), joined...)
+	}
+	if found {
+		s.tail = s.tail[:0]
+	}
+	return found
+}
+
 func (r *TrzszRelay) resetToStandby(status int32) {
 	if !r.relayStatus.CompareAndSwap(status, kRelayStandBy) {
 		return
@@ -478,6 +515,7 @@ func (r *TrzszRelay) resetToStandby(status int32) {
 
 func (r *TrzszRelay) wrapInput() {
 	defer close(r.osStdinChan)
+	var split splitMarker
 	for {
 		buffer := make([]byte, 32*1024)
 		n, err := r.clientIn.Read(buffer)
@@ -499,11 +537,14 @@ func (r *TrzszRelay) wrapInput() {
 			r.osStdinChan <- buf
 
 			if status == kRelayTransferring {
+				splitted := split.check(buf)
 				if len(buf) == 1 && buf[0] == '\x03' { // `ctrl + c` to stop
 					r.resetToStandby(kRelayTransferring)
 				} else if bytes.Contains(buf, []byte("#EXIT:")) { // transfer exit
 					r.resetToStandby(kRelayTransferring)
 				} else if bytes.Contains(buf, []byte("#FAIL:")) || bytes.Contains(buf, []byte("#fail:")) { // transfer error
+					r.resetToStandby(kRelayTransferring)
+				} else if splitted { // the marker was cut in two by the transport
 					r.resetToStandby(kRelayTransferring)
 				}
 			}
@@ -524,6 +565,7 @@ func (r *TrzszRelay) wrapOutput() {
 		defer close(r.bypassTmuxChan)
 	}
 	detector := newTrzszDetector(true, true)
+	var split splitMarker
 	for {
 		buffer := make([]byte, 32*1024)
 		n, err := r.serverOut.Read(buffer)
@@ -545,9 +587,12 @@ func (r *TrzszRelay) wrapOutput() {
 			if status == kRelayTransferring {
 				r.bypassTmuxChan <- buf
 
+				splitted := split.check(buf)
 				if bytes.Contains(buf, []byte("#EXIT:")) { // transfer exit
 					r.resetToStandby(kRelayTransferring)
 				} else if bytes.Contains(buf, []byte("#FAIL:")) || bytes.Contains(buf, []byte("#fail:")) { // transfer error
+					r.resetToStandby(kRelayTransferring)
+				} else if splitted { // the marker was cut in two by the transport
 					r.resetToStandby(kRelayTransferring)
 				}
 				continue
@@ -572,6 +617,7 @@ func (r *TrzszRelay) wrapOutput() {
 
 func (t *tunnelRelay) wrapInput() {
 	defer close(t.clientBufChan)
+	var split splitMarker
 	for {
 		buffer := make([]byte, 32*1024)
 		n, err := t.clientConn.Read(buffer)
@@ -591,9 +637,12 @@ func (t *tunnelRelay) wrapInput() {
 					}
 				}
 				if status == kRelayTransferring {
+					splitted := split.check(buf)
 					if bytes.Contains(buf, []byte("#EXIT:")) { // transfer exit
 						r.resetToStandby(kRelayTransferring)
 					} else if bytes.Contains(buf, []byte("#FAIL:")) || bytes.Contains(buf, []byte("#fail:")) { // transfer error
+						r.resetToStandby(kRelayTransferring)
+					} else if splitted { // the marker was cut in two by the transport
 						r.resetToStandby(kRelayTransferring)
 					}
 				}
@@ -612,6 +661,7 @@ func (t *tunnelRelay) wrapInput() {
 
 func (t *tunnelRelay) wrapOutput() {
 	defer close(t.serverBufChan)
+	var split splitMarker
 	for {
 		buffer := make([]byte, 32*1024)
 		n, err := t.serverConn.Read(buffer)
@@ -632,9 +682,12 @@ func (t *tunnelRelay) wrapOutput() {
 				}
 
 				if status == kRelayTransferring {
+					splitted := split.check(buf)
 					if bytes.Contains(buf, []byte("#EXIT:")) { // transfer exit
 						r.resetToStandby(kRelayTransferring)
 					} else if bytes.Contains(buf, []byte("#FAIL:")) || bytes.Contains(buf, []byte("#fail:")) { // transfer error
+						r.resetToStandby(kRelayTransferring)
+					} else if splitted { // the marker was cut in two by the transport
 						r.resetToStandby(kRelayTransferring)
 					}
 				}
